@@ -56,6 +56,20 @@ def gen(ctx):
             doc = rng.choice(["", "{", "[1,]", "{\"a\": }", "nul", "1 2", "{\"a\":1}}"])
         else:
             doc = rng.choice(["\"str\"", "1.5", "null", "[]", "{}", "1e400", "18446744073709551616"])
+        r2 = rng.random()
+        if r2 < 0.03:
+            # input larger than a pipe buffer / a 64 KiB read (via stdin and via -f)
+            big = [rng.randrange(0, 1000) for _ in range(rng.choice([20000, 40000]))]
+            docval = {"a": big, "b": "x" * rng.choice([70000, 140000])}
+            doc = json.dumps(docval)
+            expr = rng.choice(["length(a)", "a[-1]", "length(b)", "a[0:3]", "sum(a) > `0`"])
+        elif r2 < 0.07:
+            # a byte order mark is not JSON white space and not JMESPath white space: the library rejects both texts
+            if rng.random() < 0.5:
+                doc = "\ufeff" + doc
+            else:
+                expr = "\ufeff" + expr
+                mode = rng.choice(["efile", "pos"])
         if expr.startswith("-") or expr == "":
             mode = "efile" if mode == "pos" else mode      # a leading '-' would be taken as a flag by clap; empty positional is fine via file
         cases.append((mode, expr, flags or "-", ik, doc))
